@@ -40,7 +40,7 @@ def gen_cfg(rng, tier: str, big: bool = False) -> dict:
         nblocks = rng.randint(5000, 900000)
     else:
         small = [4096, 8192, 16384, 65536, 1 << 19, 1 << 21]
-        bs = rng.choice(small if tier == "quick" else small + [512, 1024, 2048, 32768, 1 << 20, 1 << 22])
+        bs = rng.choice(small * 2 + [512, 1024, 2048] if tier == "quick" else small + [512, 1024, 2048, 32768, 1 << 20, 1 << 22])
         nblocks = rng.choice([1, 2, 3, 4, 5, 8, 9, 17])
     unit = bs // 512
     nsectors = nblocks * unit
